@@ -595,6 +595,7 @@ def run(ctx, rep):
     balance.rule_release_retarget(ctx, rep)  # release-then-store through `&mut Handle` must store on unwinding exits too
     balance.rule_parked(ctx, rep)  # a parked caller-supplied value must be handed over before anything can unwind
     balance.rule_payload_dup(ctx, rep)  # user code that unwinds while a value exists both in its block and as a bitwise copy destroys it twice
+    balance.rule_payload_gap(ctx, rep)  # ... and a payload destroyed in place leaves a hole until it is written again
     balance.rule_unw(ctx, rep)
     rep.floor("R-UNW", 60, "API bodies with at least one unwinding path")
     rule_make_after_user(ctx, rep)
